@@ -95,6 +95,36 @@ let split_on c s = String.split_on_char c s
 
 type ctx = { mutable pp : ppacket option }
 
+let get (r : 'a res) : 'a =
+  match r with Ok a -> a | Err _ -> failwith "unexpected Err in getter" | Panic s -> raise (Model_panic (int_of_n s))
+
+let set ctx (r : ppacket res) : string =
+  match r with
+  | Ok pp -> ctx.pp <- Some pp; "OK"
+  | Err e -> err e
+  | Panic s -> raise (Model_panic (int_of_n s))
+
+(* big arguments (u32 flags, u64) arrive as decimal strings; OCaml ints are 63-bit *)
+let n_of_string (s : string) : n = n_of_int (int_of_string s)
+
+let run_obj_op (ctx : ctx) (pp : ppacket) (f : string array) : string =
+  match f.(0) with
+  | "b" -> "b=" ^ hex pp.pp_packet
+  | "v" -> Printf.sprintf "v[%s]" (view pp)
+  | "g" ->
+    Printf.sprintf "g[tid=%d fl=%d rc=%d op=%d qr=%d sec=%d mp=%d]"
+      (int_of_n (get (pp_tid pp))) (int_of_n (get (pp_flags pp))) (int_of_n (get (pp_rcode pp)))
+      (int_of_n (get (pp_opcode pp)))
+      (if get (pp_is_response pp) then 1 else 0)
+      (if get (pp_dnssec pp) then 1 else 0)
+      (int_of_n pp.pp_max_payload)
+  | "st" -> set ctx (pp_set_tid pp (n_of_int (int_of_string f.(1) land 0xffff)))
+  | "sf" -> set ctx (pp_set_flags pp (n_of_int (int_of_string f.(1) land 0xffffffff)))
+  | "sr" -> set ctx (pp_set_rcode pp (n_of_int (int_of_string f.(1) land 0xff)))
+  | "so" -> set ctx (pp_set_opcode pp (n_of_int (int_of_string f.(1) land 0xff)))
+  | "sp" -> set ctx (pp_set_response pp (f.(1) = "1"))
+  | _ -> "UNIMPL"
+
 let run_op (ctx : ctx) (op : string) : string =
   let f = Array.of_list (split_on ',' op) in
   match f.(0) with
@@ -132,7 +162,12 @@ let run_op (ctx : ctx) (op : string) : string =
        Printf.sprintf "OK:%s same=%d steps=%d" (view pp) (if pp.pp_packet = p then 1 else 0) steps
      | Err e -> Printf.sprintf "%s steps=%d" (err e) steps
      | Panic s -> raise (Model_panic (int_of_n s)))
-  | _ -> "UNIMPL"
+  | "E" ->
+    on_res (pp_empty (n_of_int (int_of_string f.(1)))) (fun pp -> ctx.pp <- Some pp; "OK")
+  | _ ->
+    (match ctx.pp with
+     | None -> "NOOBJ"
+     | Some pp -> run_obj_op ctx pp f)
 
 let () =
   try
